@@ -25,3 +25,31 @@ def loadInto (c : Cfg) (cur snap : St) (inclF compInv : Bool) : St :=
     if c.asg.bcastInv then broadcastGInv c (broadcastAInv c t l) l else t) s2
 
 end KV.Precond
+
+namespace KV.Precond
+
+/-- does every rank hold both factors of layer `l`? (identical on all ranks in every reachable state) -/
+def layerHasFactors (c : Cfg) (s : St) (l : Nat) : Bool :=
+  (worldRanks c).all fun r => (getL s r l).aFactor.isSome && (getL s r l).gFactor.isSome
+
+/-- `load_state_dict` after fix f317514: layers whose factors are `None` (state saved before the
+    first factor update) are skipped by the inverse computation instead of raising.  Coincides with
+    `loadInto` whenever every layer has its factors (`loadInto'_eq`, Props/C09), which is the case
+    in which `loadInto`/`saveLoad` do not fail; the driver uses this definition. -/
+def loadInto' (c : Cfg) (cur snap : St) (inclF compInv : Bool) : St :=
+  let fresh : St := { St.init c snap.hyper with
+    steps := snap.steps, pass := cur.pass, nIssued := cur.nIssued, nextReq := cur.nextReq,
+    script := cur.script, defs := cur.defs }
+  if !inclF then fresh else
+  let s2 := forRanks c fresh fun t r => (layerIdxs c).foldl (fun t l =>
+    let old := getL snap r l
+    let strip (o : Option Slot) : Option Slot := o.map fun x => { x with pend := .ready }
+    setL t r l { getL t r l with aFactor := strip old.aFactor, gFactor := strip old.gFactor }) t
+  if !compInv then s2 else
+  let damping := s2.hyper.damping.val s2.steps
+  (layerIdxs c).foldl (fun t l =>
+    if !layerHasFactors c t l then t else
+    let t := forRanks c t fun t r => computeGInv c (computeAInv c t r l damping) r l damping
+    if c.asg.bcastInv then broadcastGInv c (broadcastAInv c t l) l else t) s2
+
+end KV.Precond
